@@ -174,6 +174,7 @@ func (s *Solver) Check(conds []*Term, timeoutMs int, keep bool, want ...*Term) R
 			return RUnsat
 		}
 	}
+	conds = append(append([]*Term(nil), conds...), s.tb.AxiomsFor(conds)...)
 	refs := make([]string, 0, len(conds))
 	for _, c := range conds {
 		if c.IsTrue() {
